@@ -398,6 +398,11 @@ func valFromLeavesOrShape(proto *Val, ts []*Term, m Mode) *Val {
 			v := &Val{K: VFunc, T: p.T, X: ts[pos]}
 			pos++
 			return v
+		case VArr:
+			n := len(p.Snap)
+			v := &Val{K: VArr, T: p.T, Snap: append([]*Term(nil), ts[pos:pos+n]...), Off: ts[pos+n]}
+			pos += n + 1
+			return v
 		}
 		panic("valFromLeavesOrShape")
 	}
